@@ -117,15 +117,18 @@ def tick(lib, rng, scratch=None, n=None, force=None):
                         f.write('{"signatures": {}, "signed": {"n": ' + "9" * 5000 + "}}")
                 C.load_metadata_from_file(fn)
             elif what == 21 and scratch and getattr(lib, "cli", None) is not None:
-                # a short interactive modify-metadata session (scripted stdin): the document is displayed, then "abort"
+                # a short interactive modify-metadata session: the document is displayed, then stdin is at end-of-input
                 import builtins
 
                 fn = os.path.join(scratch, "noise-session.json")
                 with open(fn, "wb") as f:
                     f.write(canonjson.canon(gmd.envelope(gmd.root_md(1, [k], 1, [gkeys.key(13)], 1))))
-                feed = [rng.choice(["1", "4"]), "1"]
                 real_input = builtins.input
-                builtins.input = lambda prompt="": feed.pop(0) if feed else (_ for _ in ()).throw(EOFError())
+
+                def _eof(prompt=""):  # the session displays the document and its menu, then its first prompt meets end-of-input
+                    raise EOFError("noise session")
+
+                builtins.input = _eof
                 try:
                     lib.cli.cli(["modify-metadata", fn])
                 finally:
